@@ -486,7 +486,11 @@ func (c *Ctx) loadHistoryCheck() {
 			parts = append(parts, hexAll(set))
 			fresh = append(fresh, "loadcanon "+hexAll(set))
 		}
-		reqs = append(reqs, "loadhist "+strings.Join(parts, " | "))
+		if i%2 == 1 {
+			reqs = append(reqs, "loadhistb "+strings.Join(parts, " | "))
+		} else {
+			reqs = append(reqs, "loadhist "+strings.Join(parts, " | "))
+		}
 	}
 	hres := c.Worker.Map(reqs)
 	fres := c.Worker.Map(fresh)
